@@ -1115,13 +1115,19 @@ def main():
                 )
             return
         data_input = bits.read_bytes(args.in_file, input_format=config.input_format)
+        if args.witness_version is not None and args.witness_version not in range(17):
+            raise ValueError("witness version not in [0, 16]")
         witness_version_byte = (
             bip173.bech32_chars[args.witness_version : args.witness_version + 1]
             if args.witness_version is not None
             else b""
         )
         encoded_data = bip173.bech32_encode(
-            args.hrp, data_input, witness_version=witness_version_byte
+            args.hrp,
+            data_input,
+            witness_version=witness_version_byte,
+            # segwit v1+ addresses use the bech32m checksum (BIP350)
+            constant=bits.utils.BECH32M_CONST if args.witness_version else 1,
         )
         if args.print:
             encoded_data += os.linesep.encode("utf8")
